@@ -10,6 +10,7 @@ From Utp Require Import Cubic.F64 Cubic.Cubic Cubic.Libm.
 From Utp Require Import Sock.Dispatcher Sock.DispObs.
 From Utp Require Import Conn.C10_Pred Conn.C02_Pred.
 From Utp Require Import Conn.C17_Pred Conn.C03_Pred.
+From Utp Require Import Conn.C05_Pred Conn.C06_Pred.
 From Utp Require Import Conn.Recovery Conn.Msg Conn.VSockRec Conn.VSock Conn.VSockRun Conn.VObs.
 
 Extraction Language OCaml.
@@ -31,5 +32,7 @@ Extraction "model"
   c02_zero_window_waker c02_timer_ok c02_rto_armed c02_prompt c02_d2_class c02_d8_class c02_d9_class c02_d14_class
   c17_synack_ok c17_fin_after_data_ok c17_fin_number_step_ok c17_fin_seq_ok c17_peer_fin_ok
   c17_reset_ok c17_reset_trace_ok c03_ready_closed_ok c03_no_hang_ok c03_after_death_ok
+  c05_window_ok c05_zero_window_ok c05_rto_single_ok c05_monitor_ok c05_zero_window_strict c05_d16_class
+  c06_backoff_ok c06_cap_ok c06_emitted_live_ok c06_fast_retx_ok c06_stable_plen_ok c06_joint_ok
   dstate_new dstep drun dtrace cleanup_accept_queue push_acceptor c12_step_ok c13_step_ok
   cubic_new cubic_trace c15_obs_ok c15_obs_core f64_view BETA_CUBIC C_CUBIC cbrt_cr.
